@@ -375,3 +375,74 @@ def nested(ctx):
     else:
         ctx.inconclusive.append("vacuity: correlate never completed")
     ctx.sample({"paths": E.paths})
+
+
+# ---------------------------------------------------------------------------------------
+# P4: the target of a type-bound procedure binding
+# ---------------------------------------------------------------------------------------
+BINDS7 = [("procedure :: area => helper", "helper"), ("procedure :: area", "area"), ("PROCEDURE :: AREA => HELPER", "helper"),
+          ("procedure, nopass :: area => Helper", "helper"), ("procedure :: area => nowhere", None),
+          # a deferred binding has no target, whatever else is called `area` in the module
+          ("procedure(area_iface), deferred :: area", None), ("PROCEDURE(AREA_IFACE), DEFERRED :: AREA", None),
+          ("procedure(area_iface), deferred, nopass :: area", None)]
+
+
+def _bind_program(b):
+    return ["module m", "type, abstract :: shape", "integer :: c", "contains", b, "end type shape",
+            "abstract interface", "subroutine area_iface()", "end subroutine area_iface", "end interface",
+            "contains", "subroutine area()", "end subroutine area", "subroutine helper()", "end subroutine helper", "end module m"]
+
+
+def _observe_bind(p):
+    m = p.modules[0]
+    t = m.types[0]
+    bp = list(t.boundprocs)
+    if len(bp) != 1:
+        return "MISSING", None
+    tgt = list(bp[0].bindings)
+    claimed = [str(s.name).lower() for s in m.subroutines if getattr(s, "binding", None)]
+    return (tgt[0] if tgt else None), claimed
+
+
+def replay_bind7(w):
+    p = parserh.project_concrete({"a.f90": _bind_program(w["binding"])}, **SETTINGS)
+    tgt, claimed = _observe_bind(p)
+    got = _res2(tgt)
+    want = ("m", w["target"]) if w["target"] else None
+    ok_claim = claimed == ([w["target"]] if w["target"] else [])
+    return (list(got) if got else None) != (list(want) if want else None) or not ok_claim, {
+        "binding": w["binding"], "ford_target": got, "fortran_target": want, "procedures reported as type-bound": claimed}
+
+
+@obligation("C07", "P4.binding-targets", engine="SX(CV)", timeout=900)
+def binding_targets(ctx):
+    """type-bound procedure statement with symbolic spelling: a specific binding links to the module procedure it names (case-insensitively),
+    an unknown name stays text, a DEFERRED binding has no target even when a procedure of the same name exists; only the target is
+    reported as type-bound"""
+    import ford.sourceform as sf
+
+    ctx.encode_fn(sf.FortranBoundProcedure.correlate)
+    ctx.encode_fn(sf.FortranBoundProcedure._initialize)
+    ctx.bounds.update({"binding spellings": len(BINDS7)})
+
+    def h(E):
+        b = CV.choice(E, "binding", BINDS7)
+        E.e.snapshot = lambda m: {"binding": choice.value_in_model(m, b)[0], "target": choice.value_in_model(m, b)[1]}
+        tgt, claimed = parserh.project({"a.f90": _bind_program(b[0])}, post=_observe_bind, **SETTINGS)
+        E.reachable("correlated")
+        E.require(choice.apply(lambda g, w_: _res2(g) == (("m", w_) if w_ else None), tgt, b[1]), "binding resolved to the wrong target")
+        E.require(choice.apply(lambda w_: (claimed or []) == ([w_] if w_ else []), b[1]), "a procedure that is not the binding's target is reported as type-bound")
+
+    E = sym.Engine(ctx, max_paths=2000, incremental=True)
+    found = E.explore(h)
+    seen = set()
+    for (label, m, pc), snap in zip(found, E.snapshots):
+        if label in seen or not snap:
+            continue
+        seen.add(label)
+        ctx.report(label, snap, replay_bind7)
+    if E.reached.get("correlated"):
+        ctx.twins += 1
+    else:
+        ctx.inconclusive.append("vacuity: correlate never completed")
+    ctx.sample({"paths": E.paths})
